@@ -100,13 +100,34 @@ def gen_key():
         return None
 
 
+def compiled_key():
+    """source_key of the Gen/GenCallPath.vo that Properties_C16.vo was compiled against"""
+    d = os.path.join(vlib.BUILD, 'assume')
+    os.makedirs(d, exist_ok=True)
+    stem = 'K_C16_%d' % os.getpid()
+    p = os.path.join(d, stem + '.v')
+    open(p, 'w').write('Require Y2.Properties.Properties_C16.\nRequire Y2.Gen.GenCallPath.\n'
+                       'Eval vm_compute in Y2.Gen.GenCallPath.source_key.\n')
+    rc, out = vlib.run(['coqc', '-Q', vlib.COQ, 'Y2', p], timeout=120, cwd=d)
+    for f in os.listdir(d):
+        if f.startswith(stem) or f.startswith('.' + stem):
+            try:
+                os.remove(os.path.join(d, f))
+            except OSError:
+                pass
+    m = re.search(r'= "([^"]*)"\s*:\s*String.string', out)
+    return m.group(1) if (rc == 0 and m) else None
+
+
 def guarded_proof_phase(ctx, want_key):
     """proof_phase, repeated when another check regenerated Gen/GenCallPath.v for a different tree meanwhile
     (every check runs every translator; VERIF_REPO may differ between concurrent runs)"""
     for attempt in range(4):
         ctx.broken, ctx.obligations, ctx.discharged, ctx.axioms = [], [], [], {}
         vlib.proof_phase(ctx)
-        if want_key is None or gen_key() == want_key:
+        if want_key is None:
+            return
+        if gen_key() == want_key and (ctx.broken or compiled_key() == want_key):
             return
         vlib.log('C16: Gen/GenCallPath.v belongs to another tree (concurrent run); retrying')
         time.sleep(1.5 * (attempt + 1))
@@ -124,12 +145,17 @@ def split_reports(err):
 
 
 def in_library(rep):
-    return 'yorel/yomm2' in rep or 'yorel::yomm2' in rep
+    """a frame whose SOURCE FILE is a library header (template arguments naming yorel::yomm2 do not count)"""
+    return 'include/yorel/yomm2/' in rep
 
 
 def tsan_run(binp, mode, threads, iters, seed, timeout=600):
     cmd = [binp, '--mode', mode, '--threads', str(threads), '--iters', str(iters), '--seed', str(seed)]
     rc, out, err = vlib.run2(cmd, timeout=timeout, env=TSAN_ENV)
+    if rc == 124 and iters > 400:
+        # a loaded machine, not a finding: once more with a quarter of the iterations
+        vlib.log('C16: %s timed out after %ss; retrying with fewer iterations' % (mode, timeout))
+        return tsan_run(binp, mode, threads, iters // 4, seed, timeout)
     res = ''
     for line in out.split('\n'):
         if line.startswith('RESULT'):
